@@ -164,7 +164,7 @@ CHECKS = {
          'against the real RemoteClient.Run() with all its goroutines and a loop-back service; TLC evaluates the formulas on the recorded '
          'observations and validates every step against the specification. The outputs lookup is a declarative TLA+ specification '
          '(spec/OutputsCases.tla) enumerated by TLC into every outpoint list up to the bound with its expected result and compared with the real GetOutputs.',
-    design_ref='DESIGN.md 5.7, 6 (C16)',
+    design_ref='DESIGN.md 5.8, 6 (C16), 14',
     note='Known finding F11d (a Reject without a hash - GetHeaders, GetFeeQuotes - cannot be routed). F11a/F11b repaired. Steps are separated by a '
          'marker message that has passed the client\'s routing and handler goroutines, not by wall-clock time; time-outs are real (2.5 s).',
     technique='TLA+ spec + TLC exhaustive + scenario replay against the real client with trace validation; TLA+ case enumeration for GetOutputs'),
@@ -175,7 +175,7 @@ CHECKS = {
          'drops and re-declared Ready. TLC checks NotifyP / ReadyP / DropP / QuietP on the model; on the real client TLC evaluates NotifyInOrder '
          '(delivered iff accepted and id = next; next = id + 1), ReadySetsNext, ResumePointSurvives, NotifyAllInOrder (in-sync and headers '
          'notifications in order), NothingElseDelivered and HandlersAgree (two registered handlers see the same sequence) after every step.',
-    design_ref='DESIGN.md 5.7, 6 (C17)',
+    design_ref='DESIGN.md 5.8, 6 (C17), 14',
     note='F21 (tx data delivered before the accept) repaired. One scripted service; handler callbacks are recorded under a mutex in callback order.',
     technique='TLA+ spec + TLC exhaustive + scenario replay against the real client with trace validation'),
  'C18': dict(
@@ -187,7 +187,7 @@ CHECKS = {
          'connection types, with drops and stops. TLC checks Gated, AcceptP, FlushP, WrittenP on the model; on the real client TLC evaluates Gated '
          '(every non-handshake message the service receives arrives after the handshake of that connection), AcceptedOnlyIfValid, RegisterSigned, '
          'FlushedWithHandshake and AnsweredOnlyIfWritten on what the service actually received, per connection, after every step.',
-    design_ref='DESIGN.md 5.7, 6 (C18)',
+    design_ref='DESIGN.md 5.8, 6 (C18), 14',
     note='F33 (queued requests written to a connection that failed authentication / was stopped) found by this check and repaired. The connection '
          'shutdown is slowed by 5 ms at the verif hook conn.teardown so that goroutines woken by it run before the socket closes.',
     technique='TLA+ spec + TLC exhaustive + scenario replay against the real client with trace validation'),
@@ -203,7 +203,7 @@ CHECKS = {
          'returns), SavedAtStop / SavedAtRestart (what a fresh process loads from storage equals what was processed: chain tip, unconfirmed txs, '
          'peers), SilentAfterStop (no call-back after Stop returned), ResumeFromTip (the first block locator of a new connection names the stored '
          'tip), NoReannounce (announced heights are consecutive over reconnects), PhaseOrder; and validates every step against the specification.',
-    design_ref='DESIGN.md 5.8, 6 (C19)',
+    design_ref='DESIGN.md 5.9, 6 (C19), 14',
     note='No untrusted peers and no silent peer (time-outs of minutes) are scripted; the goroutines of a connection are assumed started before a '
          'stop is requested. F19 (a failing tx consumer with a full channel blocks the shutdown) needs an environment fault outside the '
          'property\'s quantifier and is described in DESIGN.md only.',
@@ -218,7 +218,7 @@ CHECKS = {
          'messages are run through the real Serialize / Deserialize (SaveTxState / FetchTxState for the stored record) on a real byte stream; TLC evaluates '
          'RoundTrip (structural and byte-for-byte equality), ExactConsumption, Framing, PrefixFails (every strict prefix fails with an error) on the recorded '
          'operations, compares the code\'s type table (PayloadForType, names, each payload\'s own Type()) with the specification\'s, and validates every operation against the specification.',
-    design_ref='DESIGN.md 5.9, 6 (C15)',
+    design_ref='DESIGN.md 5.7, 6 (C15), 14',
     note='Model-based verification adds the stream/framing state machine, the type table and the case enumeration; value fidelity itself is sampled by classes, '
          'not proved for all representable values (see DESIGN.md on the limits of the technique for this property). Known finding F37 (dependency: BSOR '
          'uint64 >= 2^63 in send_expanded_tx).',
@@ -231,7 +231,7 @@ CHECKS = {
          '65535 / 2^32-1 / 2^63 / 2^64-1 elements, for stored records also -1 and 2^31-1) over every position of the valid encoding, with the tail kept and cut, '
          'and decodes every input with the real decoders / repository loaders in child processes with a 3 GiB address space; panics are recovered and '
          'counted, the allocation of each decode is measured, a killed child is attributed to its input. TLC (Props_WireHostile) judges NoPanic, Terminates, AllocBounded.',
-    design_ref='DESIGN.md 5.9, 6 (C20)',
+    design_ref='DESIGN.md 5.7, 6 (C20), 14',
     note='F12 (13 message decoders and the peers / reorg record parsers allocated by claimed counts: panics and out-of-memory kills) found and repaired. Known '
          'finding F12b: the transaction decoder of the dependency tokenized/pkg/wire still allocates by claimed counts (not repairable in this repository). '
          'Inputs are single-position mutations of valid encodings, not all byte strings.',
